@@ -1,9 +1,11 @@
 (* suite name -> extracted model entry point *)
 open Model
+type string = Stdlib.String.t
 let table : (string * (z list -> z list)) list = [
   ("c14_builder", run_c14_builder);
   ("c14_builder_pinned", run_c14_builder_pinned);
   ("from_points", run_from_points);
   ("c14_transform", run_c14_transform);
   ("c19", run_c19);
+  ("px", run_px);
 ]
